@@ -918,18 +918,11 @@ impl Parse {
         // TODO_ZAIN: Take a look at which hashing function is being used
         let mut hasher = DefaultHasher::new();
 
-        let concatenated = format!(
-            "{}{}{}",
-            self.query,
-            self.num_params,
-            self.param_types
-                .iter()
-                .map(ToString::to_string)
-                .collect::<Vec<_>>()
-                .join(",")
-        );
-
-        concatenated.hash(&mut hasher);
+        // Hash the fields one by one: concatenating them without separators lets
+        // different statements produce the same key (e.g. "SELECT 1" + [20] and "SELECT 112" + []).
+        self.query.hash(&mut hasher);
+        self.num_params.hash(&mut hasher);
+        self.param_types.hash(&mut hasher);
 
         hasher.finish()
     }
